@@ -205,7 +205,7 @@ fn main() {
     let mut rep = Report::new("C17", &cli);
     rep.note("rule", json!("case = result stream over <= 6 queries x <= 6 tracks x 0..5 distances per pair (missing distances / missing weights included) with random N, min_votes, max_distance, threshold; every 4th case is a small stream (<= 7 elements) that is run in ALL its permutations, larger ones in 50 random permutations. TopN / BestFit / Hungarian (SortVoting) / VisualVoting outputs are compared with references written from the statement (filter <= max_distance, group, >= min_votes, weight = sum(max seen - d), order, top-N; a track goes to its greatest-weight claimant, every qualifying claim yields an element; Hungarian: every query of the stream gets one track or itself, no track twice, objective optimal) and with their own output on the permuted stream. Near-ties (weights within 1e-6 relative) downgrade the comparison and are counted. Non-trivial: at least two queries compete for one track with qualifying claims; distinct by stream hash."));
     rep.note("assumptions", json!(["the tracker-specific engines (Hungarian, Visual) see disjoint query / track id spaces, as in the trackers; the generic engines (top-N, best-fit) are also run with overlapping id spaces", "finite, non-negative distances and weights", "weights are tied only when equal up to f64 summation rounding (1e-12 relative)"]));
-    let n = cli.cases(6_000, 400_000);
+    let n = cli.cases(40_000, 400_000);
     for idx in cli.index_range(n) {
         let mut rng = Rng::for_case(cli.seed, cli.shard, idx);
         let small = idx % 4 == 0;
